@@ -339,6 +339,16 @@ pub fn structural_targeted(prop: &str, r: &mut Rng, corpus: &Corpus, tier: Tier)
     let base = |r: &mut Rng| super::general(r, corpus, tier).0;
     match prop {
         "C02" => match r.below(5) {
+            // long runs of one short construct (hundreds to thousands of repetitions)
+            4 if r.chance(1, 6) => {
+                let idx = r.below(super::FAMILIES.len());
+                let n = r.pick(&[300usize, 600, 1100, 2500]);
+                let mut s = super::family(idx, n);
+                if r.chance(1, 3) {
+                    s.push_str(r.pick(&[" tail;", "x y", ");", "\n"]));
+                }
+                s
+            }
             4 => deep_call_case(r),
             0 => speculation_case(r),
             1 => {
